@@ -340,6 +340,22 @@ fn c02_h7_header_write_glue_b() {
     kani::cover!(true);
 }
 
+//@ prop: C08
+//@ also: C02 C15
+//@ drives: FrameHeader::write (real), FrameHeader::count_bits, BlockSizeSpec::write_extra_bits, SampleRateSpec::write_extra_bits on NON-canonical code choices (valid headers only the parser or a deserialiser produces)
+//@ bound: concrete headers whose codes are valid but not the shortest: {192 samples in the 8-bit field, 44.1 kHz in the Hz field, 16 bit, stereo, frame 1}, {4096 samples in the 16-bit field, 48 kHz in the kHz field, 24 bit, mono, frame 70000}, {256 samples in the 8-bit field, 44.1 kHz in the daHz field, 8 bit, left-side, start sample 5 (variable blocking)}
+//@ asserts: bits written == count_bits() for the header as stored (the writer keeps the stored code), and the RFC 9639 reference header decoder returns the stored fields
+//@ stubs: alloc::fmt::format -> empty string
+#[kani::proof]
+#[kani::unwind(18)]
+#[kani::stub(alloc::fmt::format, fmt_stub)]
+fn c08_h7_header_write_noncanonical_codes() {
+    header_glue(BlockSizeSpec::ExtraByte(191), ChannelAssignment::Independent(2), SampleSizeSpec::B16, SampleRateSpec::Hz(44100), FrameOffset::Frame(1));
+    header_glue(BlockSizeSpec::ExtraTwoBytes(4095), ChannelAssignment::Independent(1), SampleSizeSpec::B24, SampleRateSpec::KHz(48), FrameOffset::Frame(70000));
+    header_glue(BlockSizeSpec::ExtraByte(255), ChannelAssignment::LeftSide, SampleSizeSpec::B8, SampleRateSpec::DaHz(4410), FrameOffset::StartSample(5));
+    kani::cover!(true);
+}
+
 //@ prop: C02
 //@ also: C16
 //@ drives: HEADER_CRC (crc::Crc<u8, Table<16>>::checksum, update_table::<16>)
@@ -934,6 +950,51 @@ fn c08_frame_write_counts_and_crc() {
     assert!(r.is_ok());
     std::mem::forget(r);
     assert!(full2.len == bits && full2.is_prefix_of(&full) && full.is_prefix_of(&full2));
+    kani::cover!(true);
+    std::mem::forget(f);
+}
+
+//@ prop: C10
+//@ also: C12
+//@ drives: FrameHeader::write (HEADER_CRC_BUFFER scratch sink reused across calls), Frame::write (FRAME_CRC_BUFFER scratch sink and byte buffer reused across calls), after earlier calls on the same thread that FAILED part-way or wrote something longer
+//@ bound: histories of three calls on one thread: (1) a header write that fails after filling the scratch sink (start sample 2^40 is not encodable), (2) a frame write that fails the same way, (3) a successful longer header write; then the header and frame under test (16-sample header, frame 3; header+footer frame)
+//@ asserts: the bytes written by the calls under test are exactly those of a fresh thread: length == count_bits(), the reference header decoder accepts them with the same fields, CRC-8/CRC-16 equal the bitwise reference over exactly these bytes (nothing of the earlier calls leaks in)
+//@ stubs: alloc::fmt::format -> empty string
+#[kani::proof]
+#[kani::unwind(18)]
+#[kani::stub(alloc::fmt::format, fmt_stub)]
+fn c10_crc_scratch_sinks_after_failed_writes() {
+    // (1) failing header write: the scratch sink is filled up to the number field, then Err
+    let mut bad = FrameHeader::from_specs(BlockSizeSpec::from_size(4096), ChannelAssignment::Independent(2), SampleSizeSpec::B16, SampleRateSpec::R44_1kHz);
+    bad.set_frame_offset(FrameOffset::StartSample(1u64 << 40));
+    let mut sink0 = RecSink::new(usize::MAX);
+    let r = bad.write(&mut sink0);
+    let failed = r.is_err();
+    std::mem::forget(r);
+    assert!(failed && sink0.len == 0);
+    // (2) failing frame write (same unencodable header inside a frame)
+    let badframe = gen::frame_of(bad, Vec::new());
+    let r = badframe.write(&mut sink0);
+    let failed = r.is_err();
+    std::mem::forget(r);
+    assert!(failed && sink0.len == 0);
+    std::mem::forget(badframe);
+    // (3) a successful, longer header write
+    header_glue(BlockSizeSpec::from_size(4097), ChannelAssignment::MidSide, SampleSizeSpec::B24, SampleRateSpec::Hz(16001), FrameOffset::Frame(0x7FFF_FFFF));
+    // calls under test
+    header_glue(BlockSizeSpec::from_size(16), ChannelAssignment::Independent(1), SampleSizeSpec::B16, SampleRateSpec::R44_1kHz, FrameOffset::Frame(3));
+    let f = bare_frame();
+    let bits = f.count_bits();
+    let mut full = RecSink::new(usize::MAX);
+    let r = f.write(&mut full);
+    let ok = r.is_ok();
+    std::mem::forget(r);
+    assert!(ok && full.len == bits && bits == 72);
+    let bytes = rec_bytes(&full);
+    let n = bits / 8;
+    let crc = rf::crc16(&bytes[..n - 2]);
+    assert!(bytes[n - 2] == (crc >> 8) as u8 && bytes[n - 1] == crc as u8);
+    assert!(matches!(rf::decode_header(&bytes[..n]), Ok(d) if d.block_size == 16 && d.number == 3 && d.header_bytes == 7));
     kani::cover!(true);
     std::mem::forget(f);
 }
